@@ -129,7 +129,24 @@ def collect(strict=True):
     info['names'] = names
     info['ids'] = {n: i + 1 for i, n in enumerate(names)}
     info['native_be'] = sys.byteorder == 'big'
+    info['cifti_intents'] = cifti_intent_intervals()
     return info
+
+
+def cifti_intent_intervals():
+    """the intent codes _Cifti2AsNiftiHeader._valid_intent_code accepts, as intervals (probed; fail-closed outside int16)"""
+    from nibabel.cifti2.parse_cifti2 import _Cifti2AsNiftiHeader as H
+    ok = [c for c in range(-32768, 32768) if H._valid_intent_code(c)]
+    for c in (-2 ** 31, 2 ** 31 - 1, 40000, 100000):
+        if H._valid_intent_code(c):
+            raise TypeError(f'_valid_intent_code accepts {c}: outside the probed range')
+    iv = []
+    for c in ok:
+        if iv and iv[-1][1] == c - 1:
+            iv[-1][1] = c
+        else:
+            iv.append([c, c])
+    return [tuple(x) for x in iv]
 
 
 def render(info):
@@ -148,6 +165,8 @@ def render(info):
         w(f'Definition f_{n} : Z := {info["ids"][n]}.')
     w('')
     w(f'Definition native_be : bool := {"true" if info["native_be"] else "false"}.')
+    w('(* intent codes accepted by _Cifti2AsNiftiHeader._valid_intent_code (probed) *)')
+    w('Definition cifti_intents : list (Z * Z) := [' + '; '.join(f'({a}, {b})' for a, b in info['cifti_intents']) + '].')
     w('')
     for suf, ent in info['classes'].items():
         w(f'(* {ent["klass"].__module__}.{ent["klass"].__name__} *)')
@@ -695,6 +714,55 @@ def part_e_compare(chk, recs, mod):
                                        ' shows in the other object (' + rec['detail'] + ')')
         report(chk, case, pred, False, dis, mod.get(f'e{i}'))
 
+
+# ---- part S: signatures (what the class sniffers see): C10's definition, C12's own copy, may_contain_header
+C12_NAME = {'nifti1': 'Nifti1Image', 'nifti1pair': 'Nifti1Pair', 'nifti2': 'Nifti2Image', 'nifti2pair': 'Nifti2Pair',
+            'analyze': 'AnalyzeImage', 'spm99': 'Spm99AnalyzeImage', 'spm2': 'Spm2AnalyzeImage'}
+
+
+def part_s(chk, arecs, lines):
+    """for every header of part A: the signature of its class per C10's model (lines) and per C12's model"""
+    import nibabel.imageclasses as ic
+    names = [k.__name__ for k in ic.all_image_classes]
+    c12_lines, recs = [], []
+    for i, rec in enumerate(arecs):
+        suf, b = rec['suf'], rec['rt'] if rec['suf'] == 'mgh' else rec['b']
+        if suf == 'ecat' or 'fields' not in rec:
+            continue
+        for cf in ((0, 1) if suf.startswith('nifti2') else (0,)):
+            lines.append(f's{i}.{cf} sig {suf} {cf} {hx(b)}')
+            if suf in C12_NAME:
+                nm = 'Cifti2Image' if cf else C12_NAME[suf]
+                c12_lines.append(f's{i}.{cf} wsig {names.index(nm)} {hx(b)}')
+        recs.append((i, suf, b, rec['valid'] and rec['tag'] != 'random-bytes'))
+    c12 = {}
+    if os.path.exists(os.path.join(os.path.dirname(os.path.dirname(os.path.abspath(__file__))), 'bin', 'modelrun_c12')):
+        c12 = run_model_parallel('C12', c12_lines, jobs=4)
+    return recs, c12
+
+
+def part_s_compare(chk, recs, c12, mod):
+    inf = info()
+    for i, suf, b, valid in recs:
+        klass = inf['classes'][suf]['klass']
+        case = {'part': 'A', 'cls': suf, 'be': None, 'bytes': b.hex(), 'valid': valid}
+        for cf in ((0, 1) if suf.startswith('nifti2') else (0,)):
+            m10, m12 = mod.get(f's{i}.{cf}'), c12.get(f's{i}.{cf}')
+            chk.count(key=('S', suf, cf, b), tag='S:signature')
+            if m12 is not None and m10 != m12:
+                chk.disagreements += 1
+                chk.violation('correspondence', case=case, model_output=f'C10 signature: {m10}', impl_output=f'C12 writer_sig: {m12}',
+                              predicate='the signature predicate of C10 and the writer_sig of C12 differ on these header bytes',
+                              found_input=False, theorem='C10.signature <-> C12.writer_sig')
+        # a header built through the setters is accepted by its own class's sniffer and shows the class signature
+        if valid and suf != 'mgh':
+            ok_impl = bool(klass.may_contain_header(b))
+            m0 = mod.get(f's{i}.0')
+            m1 = mod.get(f's{i}.1') if suf.startswith('nifti2') else 'ok 0'
+            if not ok_impl or (HAVE_MODEL and 'ok 1' not in (m0, m1)):
+                report(chk, case, 'a header written by the class does not carry its signature '
+                       f'(may_contain_header={ok_impl}, model signature={m0}/{m1})', False, [], m0)
+
 # ---- part B: check batteries
 MSG_CLASS = [
     ('sizeof_hdr should be', 'sizeof'), ('not recognized', 'dt_unrec'), ('not supported', 'dt_unsup'),
@@ -1149,6 +1217,7 @@ def run(chk: Check):
                         part_c_case(chk, r, src, dst, h, check, lines, crecs)
     erecs = []
     part_e(chk, lines, erecs)
+    srecs2, c12out = part_s(chk, arecs, lines) if HAVE_MODEL else ([], {})
     mod = run_model_parallel(PROP, lines, jobs=8) if HAVE_MODEL else {}
     if not HAVE_MODEL:
         drecs, srecs = [], []
@@ -1168,6 +1237,7 @@ def run(chk: Check):
     part_b_compare(chk, brecs, mod)
     part_c_compare(chk, crecs, mod)
     part_e_compare(chk, erecs, mod)
+    part_s_compare(chk, srecs2, c12out, mod)
     chk.extra['unproved_statements'] = UNPROVED
     if HAVE_MODEL:
         vm_sample(chk, arecs, brecs)
@@ -1218,11 +1288,16 @@ def conv_perturb(rng, suf, h):
 
 
 UNPROVED = [
-    'C10_convert_preserves, zooms clause, for shapes stored with the FreeSurfer conventions of NIfTI-1 (large vector, ico7) and '
-    'for check=True (pixdim may be repaired): not proved; the shape clause is proved for every shape '
-    '(C10_convert_preserves_shape_any), shape + zooms for shapes without conventions (C10_convert_preserves_shape_zooms), fields, '
-    'datatype and shape under check=True (C10_convert_check_preserves); the rest is covered by the correspondence check and the '
-    'direct predicate',
+    'C10_convert_preserves, zooms clause, for shapes stored with the FreeSurfer conventions of NIfTI-1 (large vector, ico7): not '
+    'proved (shape clause: every shape, C10_convert_preserves_shape_any; shape + zooms without conventions: '
+    'C10_convert_preserves_shape_zooms); covered by the correspondence check and the direct predicate',
+    'zooms under check=True: C10_check_fix_pixdim states exactly which pixdim entries check_fix may repair, for every header that '
+    'fits its layout; that the header produced by from_header(check=False) fits the destination layout (values in range after '
+    'the casts) is a premise there - not proved, covered by the byte-level correspondence of every conversion',
+    'C10_written_header_has_signature over-approximates the named setters by arbitrary fitting writes to the unprotected fields; '
+    'that no named setter of the implementation writes a protected field (sizeof_hdr, magic outside finalisation, eol_check, smin, '
+    'MGH version) is tied by part S (may_contain_header and both signature definitions on every setter-built header), not proved; '
+    'raw item assignment can break the signature (C10_signature_raw_assignment_refuted)',
     'a NIfTI-1 destination cannot represent the shapes (-1, 1, 1, ...) and (27307, 1, 6, ...): they read back as the FreeSurfer '
     'convention means them (excluded by the hypothesis `readable`; format ambiguity, not generated)',
     'C10_copy_independent is proved on the store model (fresh buffer / list ids, any mutation sequence); that the implementation '
